@@ -155,6 +155,13 @@ func NewUpstream(addr string, opt Opt) (_ Upstream, err error) {
 		opt.EnableHTTP3 = true
 	}
 
+	// A bare (unbracketed) ipv6 literal is accepted as url host, but it is ambiguous
+	// for everything that re-parses the url later (e.g. net/http takes its last
+	// group as a port). Normalize it to the bracketed form.
+	if ip, err := netip.ParseAddr(addrURL.Host); err == nil && ip.Is6() {
+		addrURL.Host = "[" + addrURL.Host + "]"
+	}
+
 	// If host is a ipv6 without port, it will be in []. This will cause err when
 	// split and join address and port. Try to remove brackets now.
 	addrUrlHost := tryTrimIpv6Brackets(addrURL.Host)
